@@ -1,9 +1,10 @@
 CONSTANTS
   NCursors = 2
-  Sch <- TraceSch
-  Table <- TraceTable
+  TableNames <- TraceNames
+  TableValues = 0
   Queries = 0
   FetchSizes = 0
+  Variant = "shipped"
 INIT TInit
 NEXT TNext
 INVARIANTS PrefixInv RowNumberInv ShapeInv
